@@ -18,6 +18,7 @@ import (
 	"bytes"
 	"compress/gzip"
 	"io"
+	"math"
 	"sync"
 
 	"connectrpc.com/connect"
@@ -86,6 +87,13 @@ func (p *compressionPool) compress(dst, src *bytes.Buffer) error {
 }
 
 func (p *compressionPool) decompress(dst, src *bytes.Buffer) error {
+	return p.decompressLimited(dst, src, math.MaxInt64-1)
+}
+
+// decompressLimited inflates src into dst. It reads at most one byte more than limit
+// from the decompressor (enough to tell that the limit is exceeded) and fails with a
+// resource-exhausted error if the decompressed data is larger than limit.
+func (p *compressionPool) decompressLimited(dst, src *bytes.Buffer, limit int64) error {
 	if p == nil {
 		_, err := io.Copy(dst, src)
 		return err
@@ -96,8 +104,13 @@ func (p *compressionPool) decompress(dst, src *bytes.Buffer) error {
 	if err := decomp.Reset(src); err != nil {
 		return err
 	}
-	if _, err := dst.ReadFrom(decomp); err != nil {
+	n, err := dst.ReadFrom(io.LimitReader(decomp, limit+1))
+	if err != nil {
 		return err
+	}
+	if n > limit {
+		_ = decomp.Close()
+		return bufferLimitError(limit)
 	}
 	return decomp.Close()
 }
